@@ -195,7 +195,14 @@ CHECKS = {
         "so under the property's proviso the iteration is won by a leaf of l's child), c18_centroid_unanimous_partial (all iterations: that child gets every vote, every "
         "other child none) and c18_centroid_probability_one_partial (choose_node, for every tie order and runner-up count, reports that child with all votes — "
         "probability 1 — and an empty runner-up list; at every node of the path, for every bootstrap factor), with a non-trivial instance of the hypotheses; "
-        "c18_flat_subset_refuted (finding F6: a subset on which the centroid is constant). Tie: the four real "
+        "c18_flat_subset_refuted (finding F6: a subset on which the centroid is constant). First sentence of the property (identification BY NAME across stages), over "
+        "Model/RefSide.v = get_leaf_means + read_precomputed_stats/aggregate_stats + the reference half of assemble_query_data + CellByGeneMatrix down-sampling with all error branches: "
+        "c18_leaf_means_read_by_name, c18_statistics_file_by_name and c18_leaf_means_by_name (any row order / cluster_to_row and any gene order of the statistics file give the same means by name), "
+        "c18_reference_rows_are_the_parents_leaves (rows = the leaves below the parent, sorted, once each; reference_types[i] = the parent's child above row i's leaf), "
+        "c18_reference_columns_by_name and c18_columns_aligned (query column j and reference column j carry the same gene name, with the cache of C08's write_query_markers), "
+        "c18_centroid_is_a_reference_row, and the composed c18_centroid_through_the_stages_partial / c18_centroid_vote_through_the_stages_partial (the centroid hypotheses discharged "
+        "from the files the stages write). Tie: real get_leaf_means + assemble_query_data on generated statistics files (shuffled rows and genes, 0-cell clusters, clusters outside the tree, "
+        "name styles, every parent incl. None, 17 malformed kinds) with caches written by the real create_marker_cache_from_specified_markers vs the extracted model (tags 1851-1854); the four real "
         "stages chained (statistics -> reference markers -> query markers -> mapping) on generated separable references, centroid queries in shuffled gene "
         "order, factors {0.25,0.5,0.9,1}, proviso evaluated from the recorded subsets.",
    note="Partial: the full statement is refuted by the faithful model for flat subsets (F6, known finding, documented convention of distance_utils); "
